@@ -169,6 +169,13 @@ Record WE := mkWE {
   we_exp_nepus_ab : RNC; we_exp_grid_ab : RNC; we_exp_ab : RNC
 }.
 
+(** everything in the weighted energy that does not depend on k_exp *)
+Record WParts := mkWParts {
+  wp_grid : RNC; wp_onst : RNC; wp_cgn : RNC;       (* weighted delivered: grid, on-site, cogeneration input *)
+  wp_xa_ne : RNC; wp_xa_gr : RNC;                   (* step A weighted export to nEPB / grid  (24) (25) *)
+  wp_xab_ne : RNC; wp_xab_gr : RNC                  (* step B - step A                        (27) (28) *)
+}.
+
 (** mean export factor over the declared sources, weighted by exported share (balance.rs:531-538) *)
 Fixpoint f_exp_mean (fs : list Factor) (x : CrCtx) (ea : Qc) (dest : Dest) (step : Step) (js : list ProdSource) : res RNC :=
   match js with
@@ -179,7 +186,7 @@ Fixpoint f_exp_mean (fs : list Factor) (x : CrCtx) (ea : Qc) (dest : Dest) (step
       Ok (radd (rscale (a_exp_src x j / ea) f) r)
   end.
 
-Definition weighted (fs : list Factor) (k : Qc) (x : CrCtx) : res WE :=
+Definition weighted_parts (fs : list Factor) (x : CrCtx) : res WParts :=
   let cr := cx_cr x in
   do g <- findf fs cr RED SUMINISTRO STEP_A;
   let dg := a_del_grid x in let cg := a_cgnus x in let don := a_del_onst x in
@@ -188,25 +195,30 @@ Definition weighted (fs : list Factor) (k : Qc) (x : CrCtx) : res WE :=
   let w_cgn := if qeqb cg 0 then rnc0 else rscale cg g in
   do w_onst <- (if qeqb don 0 then Ok rnc0
                 else do fo <- findf fs cr INSITU SUMINISTRO STEP_A; Ok (rscale don fo));
-  let w_del := radd (radd w_grid w_onst) w_cgn in
   if qeqb ea 0 then
-    Ok (mkWE w_del w_del w_del w_grid w_onst w_cgn rnc0 rnc0 rnc0 rnc0 rnc0 rnc0 rnc0)
+    Ok (mkWParts w_grid w_onst w_cgn rnc0 rnc0 rnc0 rnc0)
   else
     let js := srcs_present x in
     let fmean dest step amount :=
       if qeqb amount 0 then Ok rnc0 else f_exp_mean fs x ea dest step js in
     do fa_ne <- fmean A_NEPB STEP_A ene;
     do fa_gr <- fmean A_RED STEP_A egr;
-    let xa_ne := rscale ene fa_ne in
-    let xa_gr := rscale egr fa_gr in
-    let xa := radd xa_ne xa_gr in
     do fb_ne <- fmean A_NEPB STEP_B ene;
     do fb_gr <- fmean A_RED STEP_B egr;
-    let xab_ne := rscale ene (rsub fb_ne fa_ne) in
-    let xab_gr := rscale egr (rsub fb_gr fa_gr) in
-    let xab := radd xab_ne xab_gr in
-    let xx := radd xa (rscale k xab) in
-    Ok (mkWE (rsub w_del xx) (rsub w_del xa) w_del w_grid w_onst w_cgn xx xa xa_ne xa_gr xab_ne xab_gr xab).
+    Ok (mkWParts w_grid w_onst w_cgn (rscale ene fa_ne) (rscale egr fa_gr)
+                 (rscale ene (rsub fb_ne fa_ne)) (rscale egr (rsub fb_gr fa_gr))).
+
+(** (20), (2): the only place where k_exp enters *)
+Definition we_of_parts (k : Qc) (p : WParts) : WE :=
+  let w_del := radd (radd (wp_grid p) (wp_onst p)) (wp_cgn p) in
+  let xa := radd (wp_xa_ne p) (wp_xa_gr p) in
+  let xab := radd (wp_xab_ne p) (wp_xab_gr p) in
+  let xx := radd xa (rscale k xab) in
+  mkWE (rsub w_del xx) (rsub w_del xa) w_del (wp_grid p) (wp_onst p) (wp_cgn p)
+       xx xa (wp_xa_ne p) (wp_xa_gr p) (wp_xab_ne p) (wp_xab_gr p) xab.
+
+Definition weighted (fs : list Factor) (k : Qc) (x : CrCtx) : res WE :=
+  do p <- weighted_parts fs x; Ok (we_of_parts k p).
 
 (** annual service share, reverse calculation E.3.6 (balance.rs:637-649) *)
 Definition f_us_an (x : CrCtx) (s : Service) : Qc :=
@@ -266,11 +278,13 @@ Definition add_cgn_factors (fs : list Factor) (data : list Energy) : res (list F
 Definition avail_carriers (data : list Energy) : list Carrier :=
   filter (fun cr => existsb (fun e => (is_used e || is_generated e) && has_carrier cr e) data) all_carriers.
 
-Record BalCr := mkBalCr { bc_ctx : CrCtx; bc_we : WE }.
+(** a carrier's balance: flows, k-independent weighted parts, and k_exp *)
+Record BalCr := mkBalCr { bc_ctx : CrCtx; bc_parts : WParts; bc_k : Qc }.
+Definition bc_we (b : BalCr) : WE := we_of_parts (bc_k b) (bc_parts b).
 
 Definition balance_for_carrier (fs : list Factor) (k : Qc) (lm : bool) (data : list Energy) (cr : Carrier) : res BalCr :=
   let x := mk_ctx cr lm data in
-  do w <- weighted fs k x; Ok (mkBalCr x w).
+  do p <- weighted_parts fs x; Ok (mkBalCr x p k).
 
 Fixpoint balances (fs : list Factor) k lm data (crs : list Carrier) : res (list BalCr) :=
   match crs with
